@@ -110,6 +110,9 @@ def check(rep, c, cfg):
                     continue  # the tracker's own methods are checked above
                 if how == "assign" and functional_increment(pn):
                     continue  # `state.tracker.field = state.tracker.next()`: judged below as the increment
+                if how == "borrow_mut" and any(y.get("k") == "Field" and y.get("name") == field for (y, k_, i_) in [
+                        (a_, None, None) for a_ in walk(pn)]):
+                    continue  # `&mut state.tracker.counter`: a borrow of the counter itself, judged below with the mutators
                 r.instance("holder:%s.%s<-%s" % (short, fname, b["path"]), where(x), how)
                 r.violation("holder:%s.%s<-%s" % (short, fname, b["path"]), where(x),
                             "%s.%s is overwritten/borrowed mutably (%s) outside the tracker's own methods: the "
@@ -121,6 +124,7 @@ def check(rep, c, cfg):
         r.lost("a struct holding the CallLimitTracker")
     # mutators: exactly the increment
     inc_fns = []
+    inline_incs = {}
     for p, ms in muts.items():
         fn = c.fn(p)
         r.instance("mut:" + p, where(ms[0][0]), "mutable access to the counter field (%s)" % ms[0][1])
@@ -129,11 +133,47 @@ def check(rep, c, cfg):
             if all(fi) and len(set(fi)) == 1 and len(ms) == 1:
                 inc_fns.append(fi[0])
                 continue
+            # the increment written in place (`if let Some((current, _)) = &mut self.call_tracker.current_call_limit {
+            # *current += 1 }` in the one function that counts a call): the only mutable access is the borrow that binds
+            # the first component, and the only write through it is `+= 1` - the tracker stays monotone
+            if len(ms) == 1 and ms[0][1] == "borrow_mut":
+                firsts = first_component_bindings(fn)
+                bound = set(bid for n2 in walk(fn["body"]) if n2.get("k") in ("LetExpr", "Let", "Match")
+                            for bid in ([b_[0] for b_ in hirq.pat_bindings(n2["pat"])] if n2.get("pat") else
+                                        [b_[0] for a_ in n2.get("arms", []) for b_ in hirq.pat_bindings(a_["pat"])])
+                            if any(y is ms[0][0] for y in walk(n2.get("init") or n2.get("scrut") or {})))
+                ws = [n2 for n2 in walk(fn["body"]) if kind(n2) in ("Assign", "AssignOp") and hirq.local_id(n2["l"]) in bound]
+                if ws and all(kind(w) == "AssignOp" and w.get("op") == "+=" and hirq.lit_value(w["r"]) == 1
+                              and hirq.local_id(w["l"]) in firsts for w in ws) and len(ws) == 1:
+                    inline_incs[p] = ws[0]
+                    inc_fns.append(p)
+                    continue
             r.violation("mut:" + p, where(ms[0][0]), "the call counter is mutated outside impl CallLimitTracker")
             continue
         # all writes in this fn must be `<first tuple component> += 1`
         ok = True
         writes = [n for n in walk(fn["body"]) if kind(n) in ("Assign", "AssignOp")]
+        def functional_step(w):
+            """`self.counter = self.counter.map(|(current, limit)| (current + 1, limit))`"""
+            if kind(w) != "Assign":
+                return None
+            lhs, rhs = peel(w["l"]), peel(w["r"])
+            if not (kind(lhs) == "Field" and lhs["name"] == field and kind(rhs) == "MethodCall" and rhs["m"] == "map"
+                    and hirq.place(rhs["recv"]) == hirq.place(lhs) and rhs["args"] and kind(peel(rhs["args"][0])) == "Closure"):
+                return None
+            clo = peel(rhs["args"][0])
+            comps = all_tuple_components({"k": "X", "p": clo["params"]})
+            body = peel(clo["body"])
+            if len(comps) == 1 and kind(body) == "Tup" and len(body["elems"]) == 2:
+                a, b2 = peel(body["elems"][0]), peel(body["elems"][1])
+                if kind(a) == "Binary" and a["op"] == "+" and hirq.local_id(a["l"]) == comps[0][0] and hirq.lit_value(a["r"]) == 1 \
+                        and hirq.local_id(b2) == comps[0][1]:
+                    return comps[0][0]
+            return None
+        fsteps = [w for w in writes if functional_step(w) is not None]
+        if writes and len(fsteps) == len(writes) == 1:
+            inc_fns.append(p)
+            continue
         for w in writes:
             if not (kind(w) == "AssignOp" and w.get("op") == "+=" and hirq.lit_value(w["r"]) == 1):
                 ok = False
@@ -179,6 +219,8 @@ def check(rep, c, cfg):
     cg = hirq.CallGraph([c])
     callers_reached = sorted(set(p for (p, n) in cg.callers_of(reached["path"])))
     callers_inc = sorted(set(p for (p, n) in cg.callers_of(inc_fn)))
+    if inc_fn in inline_incs:
+        callers_inc = [inc_fn]      # the function that counts in place is its own "caller of the increment"
     # the increment may carry its own refusal test (`try_count(&mut self) -> bool`: an earlier arm / branch compares
     # current >= limit and does not count); its callers must then turn a `false` answer into Err
     incf = c.fn(inc_fn)
@@ -225,7 +267,8 @@ def check(rep, c, cfg):
             continue
         # the increment must be dominated by the refusal test returning Err
         for (ev, out) in pe.paths():
-            ii = hirq.index_of(ev, lambda e: e.kind == "call" and callee(e.node) == inc_fn)
+            ii = hirq.index_of(ev, lambda e: (e.kind == "call" and callee(e.node) == inc_fn) or (
+                e.kind == "assign" and e.node is inline_incs.get(inc_fn)))
             if ii < 0:
                 continue
             ci = hirq.index_of(ev[:ii], lambda e: e.kind == "cond" and any(
